@@ -360,10 +360,55 @@ impl Scenario for C14 {
             let eq = m.net[t];
             out.expect(m.bal[t][3] == eq && eq >= 0, "probe.equation", || format!("token {}: held {} vs paid+added-collected-refunded {}", t, m.bal[t][3], eq));
         }
+        // only the gas collector moves funds out: who that is, is what gas_collector() reports
+        self.payout_authority(ctx, m, out, "");
+        // entry points the check does not drive by name: with nobody's authorisation they change
+        // nothing; with everybody's they may, but gas_collector() must still name the one payer-out
+        let targets: [(&Address, &str, &[&str]); 1] = [(&ctx.gas, "/repo/contracts/axelar-gas-service/src", &axmc::inventory::GAS_KNOWN)];
+        let addresses = [ctx.who[5].clone(), ctx.who[2].clone(), ctx.gas.clone()];
+        let everybody: Vec<Address> = ctx.who.clone();
+        for (contract, func, args) in axmc::inventory::unknown_calls(w, "C14", &targets, &addresses, 32) {
+            let snap = w.snap();
+            let h0 = w.state_hash();
+            let call = w.call(&contract, &func, &args, Auth::Nobody);
+            out.expect(!call.ok || h0 == w.state_hash(), "unknown-entry-point.changed-state-unauthorised", || format!("`{}` (not among the known entry points), called with nobody's authorisation, changed the state", func));
+            w.restore(&snap);
+            let snap = w.snap();
+            let call = w.call(&contract, &func, &args, Auth::By(&everybody));
+            if call.ok {
+                self.payout_authority(ctx, m, out, &format!("after `{}` (not among the known entry points) was called with every principal's authorisation: ", func));
+            }
+            w.restore(&snap);
+        }
     }
 
     fn must_succeed_kinds(&self) -> Vec<&'static str> {
         vec!["pay_gas", "add_gas", "collect_fees", "refund"]
+    }
+}
+
+impl C14 {
+    fn payout_authority(&self, ctx: &Ctx, m: &Model, out: &mut StepOut, context: &str) {
+        let w = &ctx.w;
+        let env = &w.env;
+        let Some(t) = (0..2).find(|t| m.bal[*t][3] >= 1 && m.bal[*t][2].checked_add(1).is_some()) else { return };
+        let collector = w.query(&ctx.gas, "gas_collector", &[]);
+        let tok = to_val(env, &token_scval(&w.sc_addr(&ctx.tokens[t]), 1));
+        for (i, who) in ctx.who.iter().enumerate() {
+            for collect in [true, false] {
+                let snap = w.snap();
+                let c = if collect {
+                    w.call(&ctx.gas, "collect_fees", &[ctx.who[2].to_val(), tok], Auth::By(&[who.clone()]))
+                } else {
+                    w.call(&ctx.gas, "refund", &[to_val(env, &sstr("msg-7")), ctx.who[2].to_val(), tok], Auth::By(&[who.clone()]))
+                };
+                w.restore(&snap);
+                let named = collector == Some(w.sc_addr_val(who));
+                out.expect(c.ok == named, "payout.authority-not-the-reported-collector", || {
+                    format!("{}gas_collector() reports {:?}; {} of 1 authorised by principal {} -> ok={} ({})", context, collector, if collect { "collect_fees" } else { "refund" }, i, c.ok, c.err)
+                });
+            }
+        }
     }
 }
 
@@ -372,7 +417,7 @@ fn main() {
         let thorough = tier == "thorough";
         let mut o = Opts::new(tier, if thorough { 10 } else { 4 });
         o.min_depth = 3;
-        o.rule = "three configurations (owner and collector distinct / the same address at deployment / the service already holding i128::MAX - 5 of two tokens); all sequences over ownership transfer to the stranger, pay_gas / add_gas (2 tokens: stellar asset contract and native interchain token; spenders U1, U2; amounts -1, 0, 1, balance, balance+1; authorised by the spender or by someone else; also naming the gas service itself as payer) and collect_fees / refund (also for the empty message id; amounts -1, 0, 1, held, held+1; by collector, owner, stranger (who may have become the owner), and on the collector's authorisation for another amount; to a receiver, to the collector itself, to the gas service itself, and to an address that a third token refuses; that third token ignores the sign of amounts, and negative / zero payments in it must be refused by the service itself); after every new state all balances of both tokens and the equation held == paid + added - collected - refunded are compared with the model".into();
+        o.rule = "three configurations (owner and collector distinct / the same address at deployment / the service already holding i128::MAX - 5 of two tokens); all sequences over ownership transfer to the stranger, pay_gas / add_gas (2 tokens: stellar asset contract and native interchain token; spenders U1, U2; amounts -1, 0, 1, balance, balance+1; authorised by the spender or by someone else; also naming the gas service itself as payer) and collect_fees / refund (also for the empty message id; amounts -1, 0, 1, held, held+1; by collector, owner, stranger (who may have become the owner), and on the collector's authorisation for another amount; to a receiver, to the collector itself, to the gas service itself, and to an address that a third token refuses; that third token ignores the sign of amounts, and negative / zero payments in it must be refused by the service itself); after every new state all balances of both tokens and the equation held == paid + added - collected - refunded are compared with the model, collect_fees / refund of 1 are tried on the authorisation of each of the six principals (accepted iff gas_collector() names that principal), and every exported function of the gas service that the check does not drive by name is called with nobody's authorisation (nothing may change) and with everybody's (after which gas_collector() must still name the only principal that can pay out)".into();
         (C14 { thorough }, o)
     });
 }
